@@ -17,6 +17,7 @@ import Driver.OpsGen
 import Driver.OpsGoString
 import Driver.OpsReq
 import Driver.OpsOrder
+import Driver.OpsRegen
 import GoderiveModel.U.Typing
 import GoderiveModel.S.Equal
 import GoderiveModel.Spec.StructEq
@@ -76,6 +77,7 @@ def runOpCore (s : DState) (name : String) (args : List SExp) : String :=
 def runOp (s : DState) (name : String) (args : List SExp) : String :=
   if let some r := OpsReq.run s name args then r else
   if let some r := OpsOrder.run s name args then r else
+  if let some r := OpsRegen.run s name args then r else
   match OpsLists.run s name args with
   | some r => r
   | none =>
